@@ -1,5 +1,6 @@
 import Driver.Bastion
 import WitnessVerif.Model.StoreProtocol
+import WitnessVerif.Proofs.SqlSerial
 import Std.Data.HashSet
 /-
 Concurrency records: `LR` (one request of a concurrent execution with its real-time interval and
@@ -185,6 +186,61 @@ def handleLIN (st : St) (n : Nat) (toks : List String) (reqs : Array LReq) : Res
         st := { st with nDiv := st.nDiv + 1 }
         outs := outs ++ [s!"DIVERGE {n} LIN field=smallstep model={mouts}/{mfinal.show.take 24} impl={iouts}/{(lget final lg).show.take 24}"]
       else st := st.bump "conc.smallstep.agree"
+  -- the single-connection SQL system (`Lin.stepSql`, the system `C05_linearizable_sql` is about) replayed on what the
+  -- implementation did: a request holds the connection from the moment it reads inside its transaction (it can be
+  -- parked there only after `Begin` returned) until its `Set` or, when refused, its `Close`.  Only scheduler-released
+  -- events are used, so the replay does not depend on how fast the machine is.
+  if storeKind != "mem" && oneLog && reqs.all (fun r => r.kind == "U") && hung == "0" then
+    let ordToks := (toks.dropWhile (fun t => !t.startsWith "order=")).map (fun t =>
+      ((t.replace "order=" "").replace "[" "").replace "]" "")
+    if !(ordToks.contains "free") then
+      let lg := (reqs[0]!).log
+      let dec (snap : Option Bytes) (i : Nat) : Lin.Dec Bytes String :=
+        match reqs[i]? with
+        | none => .refuse "?"
+        | some r =>
+          let env : Wit.Env := { prev := match snap with | some b => .found b | none => .notFound }
+          let out := Wit.update cfg env r.log r.old r.cp r.proof
+          if out.err == .none then
+            .write (match r.ret with | .val b => b | _ => B.ofString s!"conflicting-write-{i}") "none"
+          else .refuse (errName out.err)
+      let init0 : Option Bytes := match lget init lg with | .val b => some b | _ => none
+      let sys0 : Lin.SqlSys Bytes String := { sys := { store := init0, pcs := List.replicate reqs.size .idle, lin := [] }, owner := none }
+      let idx := List.range reqs.size
+      let (sysF, clash) := ordToks.foldl (fun (acc : Lin.SqlSys Bytes String × Option String) tok =>
+        let (sy, clash) := acc
+        let digits := tok.takeWhile Char.isDigit
+        match digits.toNat? with
+        | none => acc
+        | some i =>
+          let op := (tok.drop digits.length).toString
+          let pc := sy.sys.pcs[i]?
+          if op == "G" then
+            match pc, sy.owner with
+            | some .idle, none => (Lin.stepSql dec idx sy i, clash)
+            | some .idle, some j => (sy, clash <|> some s!"request {i} read inside its transaction while request {j} still held the single connection")
+            | _, _ => acc
+          else if op == "S" || op == "C" then
+            match pc with
+            | some (.began _) => (Lin.stepSql dec idx sy i, clash)
+            | _ => acc
+          else acc) (sys0, none)
+      -- requests refused before any storage call (unknown log, no valid signature) never touch the connection
+      let mouts := (List.range reqs.size).map (fun i => match sysF.sys.pcs[i]? with
+        | some (.done (.ok r)) => r | some (.done .storageErr) => "other"
+        | some .idle => (match dec init0 i with | .refuse r => r | .write _ r => r)
+        | _ => "unfinished")
+      let iouts := reqs.toList.map (·.err)
+      let mfinal : Opt := match sysF.sys.store with | some b => .val b | none => .absent
+      match clash with
+      | some c =>
+        st := { st with nDiv := st.nDiv + 1 }
+        outs := outs ++ [s!"DIVERGE {n} LIN field=smallstep model=single-connection impl={c}"]
+      | none =>
+        if mouts != iouts || mfinal.show != (lget final lg).show then
+          st := { st with nDiv := st.nDiv + 1 }
+          outs := outs ++ [s!"DIVERGE {n} LIN field=smallstep model={mouts}/{mfinal.show.take 24} impl={iouts}/{(lget final lg).show.take 24}"]
+        else st := st.bump "conc.smallstep.sql.agree"
   -- C01 under concurrency: the checkpoints cosigned for one log in this execution (and the one held before) are
   -- pairwise compatible: equal sizes have equal roots, and with the ground-truth trees known, both lie on one branch
   let cpOf (b : Bytes) : Option (Nat × Bytes) := ((B.splitLast b).bind (fun p => Cp.unmarshal p.1)).map (fun c => (c.size, c.hash))
